@@ -1,4 +1,5 @@
 #![allow(dead_code)]
+mod chain;
 mod codec_cases;
 mod ep;
 mod fq;
@@ -75,6 +76,7 @@ fn run_case(kind: &str, args: &[&str]) -> String {
         "ep" => ep::run(args),
         "rt" => rt::run(args),
         "proxy" => proxy::run(args),
+        "chain" => chain::run(args),
         "compat" => codec_cases::compat(args),
         "stypename" => codec_cases::stypename(args),
         _ => format!("unknown-kind {}", kind),
